@@ -17,10 +17,11 @@ T_SkipThenReceive ==
     \E x \in Pairs : LET E == Expected(x[1], x[2]) IN
         \E j, k \in DOMAIN E : /\ j < k /\ E[k] \in Range(rcvd[x])
                                /\ E[j] \notin Range(rcvd[x]) /\ E[j] \notin Range(conn[x].sq)
-\* late joiner: first the newest history sample, then a live one
+\* late joiner: first the two newest history samples in send order, then a live one
 T_LateJoiner ==
-    \E x \in Pairs : /\ regAt[x] >= 1 /\ Len(rcvd[x]) >= 2
-                     /\ rcvd[x][1] = SentIds(x[1])[regAt[x]]
+    \E x \in Pairs : /\ regAt[x] >= 2 /\ Len(rcvd[x]) >= 3
+                     /\ rcvd[x][1] = SentIds(x[1])[regAt[x] - 1]
+                     /\ rcvd[x][2] = SentIds(x[1])[regAt[x]]
 \* publisher dropped with samples in flight: one received after its death, more waiting
 T_PubDroppedInFlight ==
     /\ out.a = "recv" /\ out.r = "some" /\ pst[out.p] = "dead"
